@@ -16,6 +16,17 @@ def t5(tier):
     return q, r
 
 
+def t5_deep(seed):
+    """thorough tier: random insertion sequences of up to 12 rectangles (deeper trees than the exhaustive 4) by tlc -simulate"""
+    out = {}
+    for name, mod, cfg in (("quadtree", "MC_QuadTree", QCFG.replace("MaxDepth = 2", "MaxDepth = 3") % 12), ("rtree", "MC_RTree", RCFG.replace("MaxEntries = 2", "MaxEntries = 3") % 12)):
+        r = vlib.run_tlc(mod, cfg, workers=8, timeout=400, simulate="num=30", depth=14, seed=seed, want_lines=False)
+        if r.violated or r.error:
+            raise vlib.Inconclusive("T5 (%s machine, simulation to 12 inserts) is violated on the model: %s\n%s" % (name, r.violated or r.error, r.log[-1500:]))
+        out[name] = {"states_checked": r.generated, "traces": r.distinct, "stopped_by_time_limit": r.timed_out}
+    return out
+
+
 def prepare():
     t5("quick")
 
@@ -27,6 +38,7 @@ def describe(e):
 
 def run(tier, seed, t0):
     (qd, qm), (rd, rm) = t5(tier)
+    deep = t5_deep(seed) if tier == "thorough" else None
     out = os.path.join(vlib.BUILD, "work", PID)
     os.makedirs(out, exist_ok=True)
     summ = json.loads(vlib.run_harness(["c04", out, seed, tier], timeout=3000))
@@ -74,7 +86,7 @@ def run(tier, seed, t0):
         "series_recorded": summ["series"], "searches_recorded": summ["searches"], "callbacks": summ["callbacks"],
         "events_judged_by_tlc": len(events), "mismatches": len(mism),
         "index_structures_reached": st,
-        "t5_quadtree": qm, "t5_rtree": rm,
+        "t5_quadtree": qm, "t5_rtree": rm, "t5_simulation_to_12_inserts": deep,
         "index_machines_at_real_constants": drift,
     }
     vlib.write_evidence(PID, tier, seed, t0, cov, [vlib.TOOLS,
